@@ -15,7 +15,8 @@ RULE = ('generated load tables: 2-6 instances on 1-3 nodes, a random subset RUNN
         'expected_loading 0-100, six strategies; oracle: the chosen instance is eligible and no eligible instance '
         'is strictly better under the strategy key (ties free), None iff nothing is eligible; then real Starter '
         'runs of applications with distribution ALL_INSTANCES / SINGLE_INSTANCE / SINGLE_NODE whose program '
-        'identifiers rules differ from the application rule (peers identified in a shuffled order; for SINGLE_NODE the '
+        'identifiers rules differ from the application rule (peers identified in a shuffled order, and identified '
+        'again - as after a restart - before 30% of the load tables; for SINGLE_NODE the '
         'node and, inside it, the instance of every process are compared with the strategy over the allowed '
         'instances in declared order); non-trivial = at least two eligible instances with '
         'different keys, or a whole-application placement; distinct = distinct (strategy, distribution, eligible '
@@ -24,10 +25,10 @@ ASSUMPTIONS = ['loads are percentages summed per node over all instances of the 
                'node load including pending requests (statement of C04)']
 FLOORS = {'quick': {'choice_comparisons': 20000, 'nontrivial_choices': 5000, 'application_runs': 1500,
                     'single_instance_runs': 300, 'single_node_runs': 300,
-                    'single_node_instance_choices_nontrivial': 300},
+                    'single_node_instance_choices_nontrivial': 300, 'peers_identified_again': 200},
           'thorough': {'choice_comparisons': 600000, 'nontrivial_choices': 150000, 'application_runs': 40000,
                        'single_instance_runs': 9000, 'single_node_runs': 9000,
-                       'single_node_instance_choices_nontrivial': 8000}}
+                       'single_node_instance_choices_nontrivial': 8000, 'peers_identified_again': 6000}}
 ROUNDS = {'quick': 60, 'thorough': 900}   # load tables per case; each table = 20 choices + 3 application runs
 CASES = {'quick': 32, 'thorough': 64}
 
@@ -139,6 +140,18 @@ def run_case(case):
             assert ctx.local_status.state.name == 'RUNNING', ctx.local_status.state
             for rnd in range(case['rounds']):
                 single.advance(1.0)
+                if rng.random() < 0.3:
+                    # a peer restarts: it is identified again at its next handshake
+                    ident, spec = rng.choice(arrival)
+                    status = ctx.instances[ident]
+                    set_instance_state(sv, status, 'STOPPED')
+                    status.state = S.CHECKING
+                    event = network_payload(spec, ident)
+                    event['now_monotonic'] = time.monotonic()
+                    ctx.on_identification_event(event)
+                    status.state = S.CHECKED
+                    status.state = S.RUNNING
+                    counters['peers_identified_again'] = counters.get('peers_identified_again', 0) + 1
                 # -- a new load table
                 running = {local} | {i for i in idents[1:] if rng.random() < 0.8}
                 for ident in idents[1:]:
